@@ -2,6 +2,7 @@ pub mod rw {
 use vstd::prelude::*;
 /// stand-in for util::rw::WriteHandle (an error stream): writes are not modelled
 pub struct WriteHandle { x: u8 }
+    impl Clone for WriteHandle { #[verifier::external_body] fn clone(&self) -> Self { unimplemented!() } }
 impl WriteHandle { #[verifier::external_body] pub fn emit(&mut self) {} #[verifier::external_body] pub fn flush(&mut self) -> Result<(),()> { Ok(()) } }
 }
 pub mod date {
